@@ -23,6 +23,7 @@ func init() {
 		monitorB(c)
 	})
 	Register("C18.push", func(c *Ctx) {
+		c.offerHeaders = true
 		runC03(c, true)
 		c.Res.Class, c.Res.Detail = "", ""
 		monitorB(c)
